@@ -51,23 +51,51 @@ class E(object):
     def __pow__(a, n): return powz(a, n)
 
     def is_const(self): return False
-    def coq(self): raise NotImplementedError
+    def coq(self, names=None): raise NotImplementedError
+    def children(self): return []
     def __repr__(self):
         s = self.coq()
         return s if len(s) < 200 else s[:200] + "..."
 
 
+_INTERN = {}
+
+
+def reset_cache():
+    """Forget the hash-consing tables (call between unrelated instances to bound memory)."""
+    _INTERN.clear()
+    for n in _KEEP:
+        if isinstance(n, Const): _INTERN[("c", n.v)] = n
+        else: _INTERN[(n.op,)] = n
+
+
+_KEEP = []
+
+
 class Const(E):
-    """Exact rational constant.  Dyadics print as `(IZR m * / IZR (2^k))` / `(IZR m * IZR (2^k))`, other rationals as
-    `(IZR n / IZR d)`; only Z literals are emitted."""
+    """Exact rational constant (hash-consed).  Dyadics print as `(IZR m * / IZR (2^k))` / `(IZR m * IZR (2^k))`, other
+    rationals as `(IZR n / IZR d)`; only Z literals are emitted."""
     __slots__ = ("v",)
 
+    def __new__(cls, v):
+        v = Fraction(v)
+        key = ("c", v)
+        n = _INTERN.get(key)
+        if n is None:
+            n = object.__new__(cls)
+            n.v = v
+            _INTERN[key] = n
+        return n
+
     def __init__(self, v):
-        self.v = Fraction(v)
+        pass
 
     def is_const(self): return True
 
-    def coq(self):
+    def bits(self):
+        return self.v.numerator.bit_length() + self.v.denominator.bit_length()
+
+    def coq(self, names=None):
         n, d = self.v.numerator, self.v.denominator
         if d == 1:
             if n == 0:
@@ -82,31 +110,48 @@ class Const(E):
 
 
 class Op(E):
+    """Interior node (hash-consed: structurally equal terms are the same object, so sharing is by identity)."""
     __slots__ = ("op", "args")
 
-    def __init__(self, op, *args):
-        self.op = op
-        self.args = args
+    def __new__(cls, op, *args):
+        key = (op,) + tuple(id(a) if isinstance(a, E) else a for a in args)
+        n = _INTERN.get(key)
+        if n is None:
+            n = object.__new__(cls)
+            n.op = op; n.args = args
+            _INTERN[key] = n
+        return n
 
-    def coq(self):
+    def __init__(self, op, *args):
+        pass
+
+    def coq(self, names=None):
+        """Coq text; `names` maps id(node) -> variable name for abstracted (let-bound) subterms."""
+        def p(x):
+            if names is not None and id(x) in names:
+                return names[id(x)]
+            return x.coq(names)
         o, a = self.op, self.args
         if o in ("+", "-", "*", "/"):
-            return "(%s %s %s)" % (a[0].coq(), o, a[1].coq())
+            return "(%s %s %s)" % (p(a[0]), o, p(a[1]))
         if o == "neg":
-            return "(- %s)" % a[0].coq()
+            return "(- %s)" % p(a[0])
         if o == "abs":
-            return "(Rabs %s)" % a[0].coq()
+            return "(Rabs %s)" % p(a[0])
         if o in ("sqrt", "exp", "ln", "sin", "cos", "atan"):
-            return "(%s %s)" % (o, a[0].coq())
+            return "(%s %s)" % (o, p(a[0]))
         if o == "PI":
             return "PI"
         if o == "powz":
-            return "(powerRZ %s (%d)%%Z)" % (a[0].coq(), a[1])
+            return "(powerRZ %s (%d)%%Z)" % (p(a[0]), a[1])
         if o == "var":
             return a[0]
         if o == "rint":
-            return "(RInt (fun %s => %s) %s %s)" % (a[0], a[1].coq(), a[2].coq(), a[3].coq())
+            return "(RInt (fun %s => %s) %s %s)" % (a[0], p(a[1]), p(a[2]), p(a[3]))
         raise ValueError(o)
+
+    def children(self):
+        return [x for x in self.args if isinstance(x, E)]
 
 
 def lift(x):
@@ -147,6 +192,7 @@ def mpfc(t):
 
 ZERO, ONE, TWO, HALF = Const(0), Const(1), Const(2), Const(Fraction(1, 2))
 PI = Op("PI")
+_KEEP.extend([ZERO, ONE, TWO, HALF, PI])
 
 
 def _c(a):
@@ -311,6 +357,7 @@ def tanh(a):
 # ----------------------------------------------------------------------------- untrusted numeric evaluation
 
 _CTX = None
+NEG = -10 ** 9          # "log2 of zero"
 
 
 def _ctx():
@@ -325,99 +372,154 @@ class EstimateError(Exception):
     pass
 
 
-def _mag(ctx, v):
-    if v == 0:
-        return None
-    return int(ctx.mag(v))
+def _m(ctx, v):
+    return int(ctx.mag(v)) if v != 0 else NEG
 
 
-def _ev(e, ctx, env):
-    """-> (value: ctx.mpf, loss: int).  loss = estimated number of bits by which the relative accuracy of an
-    interval evaluation of e at precision P falls short of P (condition-number bookkeeping, heuristic)."""
+def _ev(e, ctx, memo):
+    """-> (value: ctx.mpf, aerr: int).  Untrusted heuristic: an interval evaluation of e with P-bit floating-point
+    bounds is expected to have absolute width about 2^(aerr - P) (forward error bookkeeping, one extra bit per
+    operation).  The DAG is evaluated once per node (memo keyed by identity)."""
+    k = id(e)
+    r = memo.get(k)
+    if r is None:
+        r = _ev1(e, ctx, memo)
+        memo[k] = r
+    return r
+
+
+def _ev1(e, ctx, memo):
     if isinstance(e, Const):
         n, d = e.v.numerator, e.v.denominator
-        return ctx.mpf(n) / d, 0
+        v = ctx.mpf(n) / d
+        return v, _m(ctx, v)
     o, a = e.op, e.args
     if o == "PI":
-        return +ctx.pi, 0
+        return +ctx.pi, 2
     if o == "var":
-        return env[a[0]], 0
+        raise EstimateError("free variable in a term to be estimated")
     if o == "rint":
-        lo, _ = _ev(a[2], ctx, env); hi, _ = _ev(a[3], ctx, env)
+        lo, _ = _ev(a[2], ctx, memo); hi, _ = _ev(a[3], ctx, memo)
+        name, body = a[0], a[1]
         def f(t):
-            env2 = dict(env); env2[a[0]] = t
-            return _ev(a[1], ctx, env2)[0]
-        return ctx.quad(f, [lo, hi]), 0
+            return _ev_with_var(body, ctx, name, t)
+        v = ctx.quad(f, [lo, hi])
+        return v, _m(ctx, v) + 12
     if o == "powz":
-        v, l = _ev(a[0], ctx, env)
-        return v ** a[1], l + abs(a[1]).bit_length() + 1
-    vs = [_ev(x, ctx, env) for x in a]
+        x, ex = _ev(a[0], ctx, memo)
+        if x == 0 and a[1] < 0: raise EstimateError("0 ** negative")
+        v = x ** a[1]
+        return v, _m(ctx, v) + max(ex - _m(ctx, x), 0) + abs(a[1]).bit_length() + 1
+    vs = [_ev(x, ctx, memo) for x in a]
     if o in ("+", "-"):
-        (x, lx), (y, ly) = vs
-        r = x + y if o == "+" else x - y
-        mr = _mag(ctx, r)
-        if mr is None:
-            return r, 1 << 30
-        cand = [m + l for m, l in ((_mag(ctx, x), lx), (_mag(ctx, y), ly)) if m is not None]
-        return r, max(0, max(cand) - mr) + 1
+        (x, ex), (y, ey) = vs
+        v = x + y if o == "+" else x - y
+        return v, max(ex, ey, _m(ctx, v)) + 1
     if o == "*":
-        (x, lx), (y, ly) = vs
-        return x * y, max(lx, ly) + 1
+        (x, ex), (y, ey) = vs
+        v = x * y
+        return v, max(_m(ctx, x) + ey, _m(ctx, y) + ex, _m(ctx, v)) + 1
     if o == "/":
-        (x, lx), (y, ly) = vs
-        if y == 0: raise EstimateError("division by zero in reference term")
-        return x / y, max(lx, ly) + 1
-    x, lx = vs[0]
-    if o == "neg": return -x, lx
-    if o == "abs": return abs(x), lx
+        (x, ex), (y, ey) = vs
+        if y == 0: raise EstimateError("division by a term that evaluates to 0")
+        v = x / y
+        my = _m(ctx, y)
+        return v, max(ex - my, _m(ctx, x) + ey - 2 * my, _m(ctx, v)) + 1
+    x, ex = vs[0]
+    if o == "neg": return -x, ex
+    if o == "abs": return abs(x), ex
     if o == "sqrt":
-        if x < 0: raise EstimateError("sqrt of negative in reference term")
-        return ctx.sqrt(x), lx
-    mx = _mag(ctx, x)
+        if x < 0: raise EstimateError("sqrt of a negative term")
+        if x == 0: raise EstimateError("sqrt of a term that evaluates to 0")
+        v = ctx.sqrt(x); mv = _m(ctx, v)
+        return v, max(ex - mv, mv) + 1
+    mx = _m(ctx, x)
     if o == "exp":
-        return ctx.exp(x), (max(0, mx + lx) if mx is not None else 0) + 1
+        v = ctx.exp(x)
+        return v, _m(ctx, v) + max(ex, 0) + 1
     if o == "ln":
-        if x <= 0: raise EstimateError("ln of non-positive in reference term")
-        r = ctx.ln(x); mr = _mag(ctx, r)
-        if mr is None: return r, 1 << 30
-        return r, max(0, lx - mr) + 1
+        if x <= 0: raise EstimateError("ln of a non-positive term")
+        v = ctx.ln(x)
+        return v, max(ex - mx, _m(ctx, v)) + 1
     if o in ("sin", "cos"):
-        r = ctx.sin(x) if o == "sin" else ctx.cos(x)
-        mr = _mag(ctx, r)
-        if mr is None: return r, 1 << 30
-        if mx is None: return r, 1
-        return r, max(0, mx + lx - mr) + 1
+        v = ctx.sin(x) if o == "sin" else ctx.cos(x)
+        return v, max(ex, mx, _m(ctx, v)) + 1
     if o == "atan":
-        r = ctx.atan(x); mr = _mag(ctx, r)
-        if mr is None: return r, 1
-        return r, max(0, mx + lx - 2 * max(0, mx) - mr) + 1
+        v = ctx.atan(x)
+        return v, max(ex - 2 * max(0, mx), _m(ctx, v)) + 1
     raise ValueError(o)
 
 
-def estimate(e, base_prec, cap=60000):
-    """Untrusted: (value at a generous working precision, estimated extra bits needed).  Re-evaluates at a higher
-    working precision when the measured loss exceeds what the current one can resolve."""
-    ctx = _ctx()
-    wp = base_prec + 128
-    for _ in range(6):
-        ctx.prec = wp
-        v, loss = _ev(e, ctx, {})
-        if loss >= (1 << 29):
-            if wp > cap:
-                raise EstimateError("reference term evaluates to 0 at %d bits" % wp)
-            wp = wp * 2 + 256
-            continue
-        if base_prec + loss + 96 <= wp:
-            return v, loss
-        wp = base_prec + loss + 160
-        if wp > cap * 2:
-            raise EstimateError("reference term too ill-conditioned (loss %d bits)" % loss)
-    return v, loss
+def _ev_with_var(body, ctx, name, t):
+    memo = {}
+    def sub(e):
+        if isinstance(e, Op) and e.op == "var" and e.args[0] == name:
+            return t
+        return None
+    # plain recursive evaluation with the variable bound (values only)
+    def go(e):
+        if isinstance(e, Const): return ctx.mpf(e.v.numerator) / e.v.denominator
+        o, a = e.op, e.args
+        if o == "var":
+            if a[0] == name: return t
+            raise EstimateError("free variable")
+        if o == "PI": return +ctx.pi
+        if o == "powz": return go(a[0]) ** a[1]
+        xs = [go(x) for x in a if isinstance(x, E)]
+        if o == "+": return xs[0] + xs[1]
+        if o == "-": return xs[0] - xs[1]
+        if o == "*": return xs[0] * xs[1]
+        if o == "/": return xs[0] / xs[1]
+        if o == "neg": return -xs[0]
+        if o == "abs": return abs(xs[0])
+        return getattr(ctx, {"ln": "ln"}.get(o, o))(xs[0])
+    return go(body)
 
 
 def approx(e, prec=200):
+    """Untrusted numeric value of a closed term at `prec` bits."""
     ctx = _ctx(); ctx.prec = prec
-    return _ev(e, ctx, {})[0]
+    return _ev(lift(e), ctx, {})[0]
+
+
+def plan_prec(diffs, margin, min_prec=40, max_prec=40000, start=0):
+    """diffs: list of closed terms D (each atom is `D <= 0` or `D < 0`).  Untrusted: -> (P, [value of D ...]) with
+    P = max over atoms of (aerr(D) - mag(D)) + margin, re-evaluated at a working precision above P until stable."""
+    ctx = _ctx()
+    # every constant must be exact in the evaluator, otherwise the magnitudes it sees belong to another problem
+    cb = 0
+    seen = set()
+    stack = list(diffs)
+    while stack:
+        n = stack.pop()
+        if id(n) in seen: continue
+        seen.add(id(n))
+        if isinstance(n, Const):
+            d = n.v.denominator
+            cb = max(cb, n.v.numerator.bit_length() + (0 if _ispow2(d) else d.bit_length()))
+        else:
+            stack.extend(n.children())
+    wp = max(192, start + 128, cb + 64)
+    P = None
+    for _ in range(7):
+        ctx.prec = wp
+        memo = {}
+        need = min_prec
+        vals = []
+        for D in diffs:
+            v, ea = _ev(D, ctx, memo)
+            vals.append(v)
+            if v == 0:
+                need = max(need, wp)           # undecided at this working precision
+            else:
+                need = max(need, ea - _m(ctx, v) + margin)
+        if need + 48 <= wp and (P is None or abs(need - P) <= 16 or need <= P):
+            return max(min_prec, min(max_prec, need)), vals
+        if need > max_prec:
+            raise EstimateError("needs more than %d bits (estimated %d)" % (max_prec, need))
+        P = need
+        wp = need + 96
+    return max(min_prec, min(max_prec, P)), vals
 
 
 # ----------------------------------------------------------------------------- complex helpers
@@ -597,57 +699,174 @@ def ctanh(z): return cdiv(csinh(z), ccosh(z))
 # goals and instances
 # =====================================================================================================
 
-def cmp_text(l, op, r):
-    return "%s %s %s" % (lift(l).coq(), op, lift(r).coq())
-
-
-def conj_text(atoms):
-    return " /\\ ".join("(%s)" % cmp_text(*a) for a in atoms) if len(atoms) > 1 else cmp_text(*atoms[0])
-
-
 HEADER_R = "From Coq Require Import Reals ZArith.\nFrom Interval Require Import Tactic.\nOpen Scope R_scope.\n"
 HEADER_RINT = ("From Coq Require Import Reals ZArith.\nFrom Coquelicot Require Import Coquelicot.\n"
                "From Interval Require Import Tactic.\nOpen Scope R_scope.\n")
 HEADER_Z = "From Coq Require Import ZArith Bool.\nOpen Scope Z_scope.\n"
 
 DEFAULT_PARAMS = {
-    "margin": 24,            # i_prec = -log2(eps) + estimated loss + margin
-    "ladder": [1, 2],        # multipliers of i_prec tried in turn (bound, negation at each rung)
+    "margin": 24,            # i_prec = (estimated abs. error exponent - magnitude of the decided quantity) + margin
+    "ladder": [1, 2],        # multipliers of i_prec tried in turn (bound and negation at each rung)
     "sentence_timeout": 60,  # Coq `Set Default Timeout` (s): a located "Timeout!" error instead of a dead file
-    "single_timeout": 150,   # shell timeout for one single-lemma file (s)
+    "single_timeout": 100,   # shell timeout for one single-lemma file (s)
     "file_timeout": 400,     # shell timeout for one batch file (s)
-    "batch": 25,             # lemmas per batch file (upper bound)
+    "batch": 40,             # lemmas per batch file (upper bound)
     "min_prec": 40,
     "max_prec": 40000,
+    "big_const_bits": 400,   # constants longer than this are abstracted behind a P-bit enclosure (proved by interval)
 }
+
+
+def _diff(l, op, r):
+    """atom (l op r), op in {"<=","<"}  ->  closed term D with the atom equivalent to `D op 0`.
+    (Interval 4.6 is dramatically slower on `c <= e` than on `e - c <= 0` when big integer literals occur.)"""
+    return sub(lift(l), lift(r))
+
+
+class Structured(object):
+    r"""A conjunction of atoms `D_i op_i 0` over closed real terms, emitted with every shared subterm (and every long
+    constant) let-bound once:
+
+        Lemma inst : let v1 := T1 in ... let vn := Tn in (D1 <= 0) /\ (D2 < 0).
+        Proof. intros v1 ... vn.
+          (* long constant *)  assert (H1 : lo <= v1 <= hi) by (unfold v1; split; [apply Ropp_le_cancel|]; interval ...).
+          (* shared subterm *) interval_intro (T2) with (i_prec P) as H2; fold v2 in H2.
+          clearbody v1 ...   repeat apply conj; interval with (i_prec P). Qed.
+
+    The statement is convertible with the fully expanded closed inequality; the lets only exist because Interval does
+    no common-subexpression sharing, so the proof cost would otherwise grow with the number of occurrences."""
+
+    def __init__(self, atoms, big_const_bits=400):
+        self.atoms = [(_diff(l, op, r), op) for (l, op, r) in atoms]
+        for _, op in self.atoms:
+            assert op in ("<=", "<")
+        roots = [d for d, _ in self.atoms]
+        refs = {}
+        order = []
+        seen = set()
+
+        def visit(n):
+            if id(n) in seen:
+                return
+            seen.add(id(n))
+            for c in n.children():
+                refs[id(c)] = refs.get(id(c), 0) + 1
+                visit(c)
+            order.append(n)
+        for r in roots:
+            refs[id(r)] = refs.get(id(r), 0) + 1
+            visit(r)
+        self.shared = []
+        for n in order:
+            if isinstance(n, Const):
+                b = n.bits()
+                if b > big_const_bits or (b > 128 and refs[id(n)] >= 3):
+                    self.shared.append(n)
+            elif n.op in ("PI", "var", "neg", "abs"):
+                continue
+            elif refs[id(n)] >= 2:
+                self.shared.append(n)
+        self.names = {}
+        for i, n in enumerate(self.shared):
+            self.names[id(n)] = "v%d" % (i + 1)
+        self.has_rint = any(isinstance(n, Op) and n.op == "rint" for n in order)
+
+    def _body(self, n):
+        """text of node n in terms of the names of *other* abstracted nodes"""
+        nm = dict(self.names); nm.pop(id(n), None)
+        return n.coq(nm)
+
+    def statement(self):
+        lets = "".join("let %s := %s in " % (self.names[id(n)], self._body(n)) for n in self.shared)
+        body = " /\\ ".join("(%s %s 0)" % (d.coq(self.names) if id(d) not in self.names else self.names[id(d)], op)
+                            for d, op in self.atoms)
+        if len(self.atoms) == 1:
+            body = body[1:-1]
+        return lets + body
+
+    def script(self, prec, final=None):
+        final = final or ("interval with (i_prec %d)" % prec)
+        L = []
+        if self.shared:
+            L.append("intros %s." % " ".join(self.names[id(n)] for n in self.shared))
+        for i, n in enumerate(self.shared):
+            v = self.names[id(n)]
+            if isinstance(n, Const):
+                lo, hi = _round_dir(n.v, prec, -1), _round_dir(n.v, prec, +1)
+                L.append("assert (H%d : %s <= %s <= %s) by (unfold %s; split; [apply Ropp_le_cancel|]; interval with (i_prec %d))."
+                         % (i + 1, Const(lo).coq(), v, Const(hi).coq(), v, prec + 8))
+            else:
+                L.append("interval_intro %s with (i_prec %d) as H%d; fold %s in H%d." % (self._body(n), prec, i + 1, v, i + 1))
+            L.append("clearbody %s." % v)
+        L.append("repeat apply conj; %s." % final)
+        return " ".join(L)
+
+
+def _round_dir(fr, bits, direction):
+    """`bits`-bit dyadic below (direction<0) / above (>0) the rational fr (generator-side exact arithmetic)."""
+    fr = Fraction(fr)
+    if fr == 0:
+        return fr
+    n, d = abs(fr.numerator), fr.denominator
+    e = n.bit_length() - d.bit_length() - bits
+    num, den = (n << -e, d) if e < 0 else (n, d << e)
+    q, r = divmod(num, den)
+    up = (direction > 0) == (fr > 0)
+    if r and up:
+        q += 1
+    v = Fraction(q) * Fraction(2) ** e
+    return v if fr > 0 else -v
 
 
 class Instance(object):
     """One certificate request.
 
-    kind   "R"  : real goal, tactic `interval with (i_prec P)`  (P = self.prec, scaled along the ladder)
-           "RI" : real goal containing RInt, tactic `integral with (i_prec P, i_fuel F, i_degree D)`
+    kind   "R"  : real goal, final tactic `interval with (i_prec P)`  (P = self.prec, scaled along the ladder)
+           "RI" : real goal containing RInt, final tactic `integral with (i_prec P, i_fuel F, i_degree D)`
            "Z"  : closed boolean goal over Z (`... = true`), tactic `vm_compute; reflexivity`
-    goal   Coq text of the bound (hypothesis-free Prop)
-    negs   list of Coq texts; each one implies the negation of the property's bound (any one proved => "fail")
+    goal   Coq text of the bound (hypothesis-free Prop)  -- or a `Structured` object
+    negs   list of Coq texts / Structured objects; each implies the negation of the bound (any one proved => "fail")
     hint   "pass" | "fail" | None : untrusted prediction, used for scheduling only
     trivial  True when the certificate is not a real Interval/vm_compute proof of a non-trivial fact
     meta   free dict copied into the verdict (function name, regime tag, arguments ...)"""
 
     def __init__(self, id, goal, negs=None, kind="R", prec=64, hint=None, tactic=None, meta=None, trivial=False):
-        self.id = str(id); self.goal = goal; self.negs = list(negs or []); self.kind = kind
+        self.id = str(id); self._goal = goal; self._negs = list(negs or []); self.kind = kind
         self.prec = int(prec); self.hint = hint; self.tactic = tactic; self.meta = meta or {}
         self.trivial = trivial
 
-    def tactic_text(self, prec):
+    @property
+    def goal(self):
+        return self.statement("goal")
+
+    @property
+    def negs(self):
+        return [self.statement(("neg", j)) for j in range(len(self._negs))]
+
+    def _obj(self, which):
+        return self._goal if which == "goal" else self._negs[which[1]]
+
+    def statement(self, which):
+        o = self._obj(which)
+        return o.statement() if isinstance(o, Structured) else o
+
+    def final_tactic(self, prec):
         if self.tactic:
             return self.tactic.replace("{prec}", str(prec))
         if self.kind == "Z":
             return "vm_compute; reflexivity"
         if self.kind == "RI":
-            return "repeat apply conj; integral with (i_prec %d, i_fuel %d, i_degree %d)" % (
+            return "integral with (i_prec %d, i_fuel %d, i_degree %d)" % (
                 prec, self.meta.get("i_fuel", 100), self.meta.get("i_degree", 10))
-        return "repeat apply conj; interval with (i_prec %d)" % prec
+        return "interval with (i_prec %d)" % prec
+
+    def tactic_text(self, prec, which="goal"):
+        o = self._obj(which)
+        if isinstance(o, Structured):
+            return o.script(prec, self.final_tactic(prec))[:-1]
+        if self.kind == "Z":
+            return self.final_tactic(prec)
+        return "repeat apply conj; " + self.final_tactic(prec)
 
 
 def _eps_bits(eps):
@@ -657,6 +876,32 @@ def _eps_bits(eps):
     return max(0, e.denominator.bit_length() - e.numerator.bit_length())
 
 
+def atoms_instance(id, atoms, neg_atom_lists=(), params=None, meta=None, trivial=False, kind=None):
+    """General real instance: the bound is the conjunction of `atoms` (l, op, r) with op in {"<=","<"}; each element of
+    `neg_atom_lists` is a conjunction that implies the negation.  i_prec and the pass/fail hint come from the
+    untrusted estimator; an EstimateError is recorded in meta["estimate_error"] (the caller may drop the instance)."""
+    P = dict(DEFAULT_PARAMS); P.update(params or {})
+    meta = dict(meta or {})
+    g = Structured(atoms, P["big_const_bits"])
+    negs = [Structured(a, P["big_const_bits"]) for a in neg_atom_lists]
+    hint = None
+    prec = 128
+    try:
+        prec, vals = plan_prec([d for d, _ in g.atoms], P["margin"], P["min_prec"], P["max_prec"])
+        ok = all((v <= 0 if op == "<=" else v < 0) for v, (_, op) in zip(vals, g.atoms))
+        hint = "pass" if ok else "fail"
+        if not ok and negs:
+            # precision needed by the (first) negation may differ: take the larger one
+            p2, _ = plan_prec([d for d, _ in negs[0].atoms], P["margin"], P["min_prec"], P["max_prec"])
+            prec = max(prec, p2)
+        meta["est_prec"] = prec
+    except EstimateError as ex:
+        meta["estimate_error"] = str(ex)
+    if kind is None:
+        kind = "RI" if g.has_rint else "R"
+    return Instance(id, g, negs, kind=kind, prec=prec, hint=hint, meta=meta, trivial=trivial)
+
+
 def rel_instance(id, y, ref, eps, scale=None, conds=(), params=None, meta=None, other_scales=()):
     """Instance for  |y - ref| <= eps * |scale|   (scale defaults to ref: plain relative error).
 
@@ -664,7 +909,6 @@ def rel_instance(id, y, ref, eps, scale=None, conds=(), params=None, meta=None, 
     other_scales: further terms s such that the property's bound is eps*max(|scale|, |s|...): the bound is attempted
     with `scale` only (sufficient), the negation needs eps*|s| < |y - ref| for *every* one of them.
     When `ref` folds to a rational constant the goal is decided over Z by vm_compute instead of Interval."""
-    P = dict(DEFAULT_PARAMS); P.update(params or {})
     y = lift(y); ref = lift(ref); eps = lift(eps)
     scale = ref if scale is None else lift(scale)
     scales = [scale] + [lift(s) for s in other_scales]
@@ -672,61 +916,26 @@ def rel_instance(id, y, ref, eps, scale=None, conds=(), params=None, meta=None, 
     if ref.is_const() and all(s.is_const() for s in scales) and not conds:
         err = abs(y.v - ref.v)
         bound = eps.v * max(abs(s.v) for s in scales)
-        goal = q_le_text(err, bound)
-        neg = q_lt_text(bound, err)
-        triv = (err == 0)
-        return Instance(id, goal, [neg], kind="Z", hint="pass" if err <= bound else "fail", meta=meta, trivial=triv)
+        return Instance(id, q_le_text(err, bound), [q_lt_text(bound, err)], kind="Z",
+                        hint="pass" if err <= bound else "fail", meta=meta, trivial=(err == 0))
     err = rabs(y - ref)
     atoms = [tuple(c) for c in conds] + [(err, "<=", eps * rabs(scale))]
-    goal = conj_text(atoms)
-    negs = [conj_text([tuple(c) for c in conds] + [(eps * rabs(s), "<", err) for s in scales])]
-    loss2 = 0
-    try:
-        v, loss = estimate(ref, _eps_bits(eps))
-        for s in scales:
-            if s is not ref:
-                loss2 = max(loss2, estimate(s, 64)[1] - _eps_bits(eps))   # the scale only needs a few correct bits
-        for (l, _, r) in conds:
-            estimate(lift(r) - lift(l), 64)                            # raises when undecidable
-        ctx = _ctx()
-        yv = ctx.mpf(y.v.numerator) / y.v.denominator
-        sv = max(abs(approx(s, ctx.prec)) for s in scales)
-        ev = ctx.mpf(eps.v.numerator) / eps.v.denominator
-        hint = "pass" if abs(yv - v) <= ev * sv else "fail"
-        meta["est_loss"] = loss
-        if v != 0:
-            meta["est_err_log2"] = float(ctx.log(abs(yv - v) / sv, 2)) if yv != v and sv != 0 else None
-    except EstimateError as ex:
-        meta["estimate_error"] = str(ex)
-        loss, hint = 64, None
-    prec = _eps_bits(eps) + max(loss, loss2) + P["margin"]
-    prec = max(P["min_prec"], min(P["max_prec"], prec))
-    kind = "RI" if "RInt" in goal else "R"
-    return Instance(id, goal, negs, kind=kind, prec=prec, hint=hint, meta=meta)
+    negs = [[tuple(c) for c in conds] + [(eps * rabs(s), "<", err) for s in scales]]
+    return atoms_instance(id, atoms, negs, params=params, meta=meta)
 
 
 def sign_instance(id, term, op, params=None, meta=None):
     """Instance for `0 < term`, `term < 0`, `0 <= term` ... (op in {">0","<0",">=0","<=0"}); negation included."""
     term = lift(term)
-    P = dict(DEFAULT_PARAMS); P.update(params or {})
     if term.is_const():
         v = term.v
         truth = {">0": v > 0, "<0": v < 0, ">=0": v >= 0, "<=0": v <= 0}[op]
         g = {">0": q_lt_text(0, v), "<0": q_lt_text(v, 0), ">=0": q_le_text(0, v), "<=0": q_le_text(v, 0)}[op]
         n = {">0": q_le_text(v, 0), "<0": q_le_text(0, v), ">=0": q_lt_text(v, 0), "<=0": q_lt_text(0, v)}[op]
         return Instance(id, g, [n], kind="Z", hint="pass" if truth else "fail", meta=meta, trivial=True)
-    g = {">0": cmp_text(ZERO, "<", term), "<0": cmp_text(term, "<", ZERO),
-         ">=0": cmp_text(ZERO, "<=", term), "<=0": cmp_text(term, "<=", ZERO)}[op]
-    n = {">0": cmp_text(term, "<=", ZERO), "<0": cmp_text(ZERO, "<=", term),
-         ">=0": cmp_text(term, "<", ZERO), "<=0": cmp_text(ZERO, "<", term)}[op]
-    try:
-        v, loss = estimate(term, 32)
-        truth = {">0": v > 0, "<0": v < 0, ">=0": v >= 0, "<=0": v <= 0}[op]
-        hint = "pass" if truth else "fail"
-    except EstimateError:
-        loss, hint = 64, None
-    prec = max(P["min_prec"], min(P["max_prec"], 32 + loss + P["margin"]))
-    return Instance(id, g, [n], kind="R", prec=prec, hint=hint, meta=meta)
+    g = {">0": (ZERO, "<", term), "<0": (term, "<", ZERO), ">=0": (ZERO, "<=", term), "<=0": (term, "<=", ZERO)}[op]
+    n = {">0": (term, "<=", ZERO), "<0": (ZERO, "<=", term), ">=0": (term, "<", ZERO), "<=0": (ZERO, "<", term)}[op]
+    return atoms_instance(id, [g], [[n]], params=params, meta=meta)
 
 
 # ---- exact rational goals decided over Z by vm_compute ------------------------------------------------
@@ -823,12 +1032,12 @@ def _write_file(path, insts, what, precs, sentence_timeout):
     zmixed = any(i.kind == "Z" for i in insts) and not all(i.kind == "Z" for i in insts)
     spans = []
     for k, (ins, w, pr) in enumerate(zip(insts, what, precs)):
-        text = ins.goal if w == "goal" else ins.negs[w[1]]
+        text = ins.statement(w)
         if ins.kind == "Z" and zmixed:
             text = "(%s)%%Z" % text
         first = len(lines) + 1
         lines.append("Lemma inst_%d : %s." % (k, text))
-        lines.append("Proof. %s. Qed." % ins.tactic_text(pr))
+        lines.append("Proof. %s. Qed." % ins.tactic_text(pr, w))
         spans.append((first, len(lines)))
     with open(path, "w") as f:
         f.write("\n".join(lines) + "\n")
@@ -896,11 +1105,19 @@ def certify(instances, tactic_params=None, jobs=16, timeout=None, tag="misc", cl
     # ---------------- stage 1: batches of instances not predicted to fail
     first = [i for i in insts if i.hint != "fail"]
     ladder_q = [(i, "hint") for i in insts if i.hint == "fail"]
-    first.sort(key=lambda i: (i.kind != "Z", -i.prec))
-    nfiles = max(1, min(max(jobs, (len(first) + P["batch"] - 1) // P["batch"]), len(first)))
+    def cost(i):
+        return 0.05 if i.kind == "Z" else 0.05 + (i.prec / 1000.0) ** 2 * (1 + len(getattr(i._goal, "shared", ())) / 4.0)
+    first.sort(key=lambda i: -cost(i))
+    nfiles = max(1, min(len(first), max(jobs, (len(first) + P["batch"] - 1) // P["batch"])))
     if first and len(first) / nfiles < 4:
         nfiles = max(1, len(first) // 4)
-    groups = [first[k::nfiles] for k in range(nfiles)]
+    groups = [[] for _ in range(nfiles)]
+    loads = [0.0] * nfiles
+    for i in first:                       # longest-processing-time-first bin packing on the estimated cost
+        k = min(range(nfiles), key=lambda j: (loads[j], len(groups[j])))
+        groups[k].append(i); loads[k] += cost(i)
+    order = sorted(range(nfiles), key=lambda j: -loads[j])
+    groups = [groups[j] for j in order]
     counter = [0]
 
     def do_batch(group, name):
@@ -965,8 +1182,8 @@ def certify(instances, tactic_params=None, jobs=16, timeout=None, tag="misc", cl
         mults = P["ladder"] if ins.kind != "Z" else [1]
         for r, mlt in enumerate(mults):
             pr = min(P["max_prec"], base * mlt)
-            order = [("neg", j) for j in range(len(ins.negs))] + ["goal"] if ins.hint == "fail" or (r == 0 and why in ("failed",)) \
-                else ["goal"] + [("neg", j) for j in range(len(ins.negs))]
+            order = [("neg", j) for j in range(len(ins._negs))] + ["goal"] if ins.hint == "fail" or (r == 0 and why in ("failed",)) \
+                else ["goal"] + [("neg", j) for j in range(len(ins._negs))]
             for w in order:
                 if r == 0 and w == "goal" and why == "failed":
                     continue          # already attempted in the batch with the same parameters
